@@ -76,6 +76,39 @@ func genC11(r *Rng, e *Emitter, n int) {
 		ring = append(ring, ring[0], ring[1])
 		emitLocate(e, 2, geom.Coord{float64(r.Intn(4)), float64(r.Intn(4))}, ring)
 	}
+	// a point as close as an integer point can be to a long sloping edge without being on it: the
+	// edge's end points, translated to the point, form a unimodular pair (determinant +-1) with a
+	// long Euclidean descent
+	for i := 0; i < n/8; i++ {
+		bits := 3 + r.Intn(23)
+		ux, uy, vx, vy := r.unimodular(bits)
+		px, py := int64(r.Intn(1<<20)), int64(r.Intn(1<<20))
+		// edge from p+u to p-v straddles the ray's line; close the ring through a far corner
+		a := [2]int64{px + ux, py + uy}
+		b := [2]int64{px - vx, py - vy}
+		corners := [][2]int64{{px + (1 << 27), py - (1 << 27)}, {px - (1 << 27), py - (1 << 27)}, {px - (1 << 27), py + (1 << 27)}, {px + (1 << 27), py + (1 << 27)}}
+		c := corners[r.Intn(4)]
+		vs := [][2]int64{a, b, c}
+		if r.chance(1, 2) {
+			vs = [][2]int64{b, a, c}
+		}
+		st := r.Intn(3)
+		stride := 2 + r.Intn(3)
+		ring := make([]float64, 0, 4*stride)
+		for k := 0; k <= 3; k++ {
+			v := vs[(k+st)%3]
+			ring = append(ring, float64(v[0]), float64(v[1]))
+			for o := 2; o < stride; o++ {
+				ring = append(ring, r.anyBits())
+			}
+		}
+		p := geom.Coord{float64(px), float64(py)}
+		for o := 2; o < stride; o++ {
+			p = append(p, r.anyBits())
+		}
+		e.tally("op=locate-unimodular")
+		emitLocate(e, stride, p, ring)
+	}
 	grids := []int{4, 6, 8, 16, 1 << 26}
 	for i := 0; i < n; i++ {
 		stride := 2 + r.Intn(3)
